@@ -270,6 +270,17 @@ class C18(Check):
                 allowed.update(range(infos[0]['header_hash'][0], infos[0]['header_hash'][0] + 0x20))
                 for pi, info in enumerate(infos):
                     allowed |= allowed_changes(info, refs[pi].touched)
+                # a DIFF descriptor that the header declares larger than DIFI + IVFC + DPFS + master hashes: the descriptor is re-written as
+                # one record (it is what the header hash covers) and its trailing slack comes out as zeros - allowed, as zeros only
+                slack = set()
+                if geom['kind'] == 'diff' and effective and refs[0].touched:
+                    i0 = infos[0]
+                    slack = set(range(i0['desc_off'] + i0['desc_len'], i0['table_off'] + i0['table_len']))
+                    if any(final[k] != 0 for k in slack):
+                        mon.append('the slack of the re-written partition descriptor holds something other than zeros')
+                    allowed |= slack
+                    if slack:
+                        info_d['descriptor declared larger than its parts'] = 1
                 if len(final) != len(f):
                     mon.append(f'file length changed from {len(f)} to {len(final)}')
                 else:
